@@ -1180,6 +1180,16 @@ def _check_c13(w, res, inc, s, cc):
     if not s["calls"]:
         res.violate("C13", "C13:started-consumer-does-nothing:%s" % ("restart" if inc.sessions.index(s) else "first-start"),
                     "start() was accepted but the consumer never issued a request")
+    # an unrecoverable error - the processor itself failing, with whatever exception - is reported on the start Deferred
+    failed = [p for p in s["procs"] if p["done"] and p["ok"] is False and not p.get("cancelled")]
+    if failed:
+        p0 = failed[0]
+        stop_seq = s["stop_seq"] if s["stopped"] and s["stop_seq"] is not None else None
+        if not s["shutdown_called"] and (stop_seq is None or p0.get("seq_done", 0) < stop_seq - 1):
+            res.oblige("C13")
+            if not (sw.fires and sw.ok is False):
+                res.violate("C13", "C13:processor-failure-not-reported-on-the-start-deferred",
+                            "processor invocation %d failed; the start Deferred %s" % (p0["k"], "fired with success" if sw.fires else "did not fire"))
     if s["stopped"] and sw.fires == 0:
         res.violate("C13", "C13:start-deferred-never-fired", "session stopped by %s but the start Deferred never fired" % s["stop_kind"])
         return
